@@ -188,11 +188,51 @@ def c18_menu(seed, run, tier, k):
     return spec
 
 
+def c18_interrupt_sweep(seed, run, tier):
+    """Crash-point sweep: one cold request is interrupted (KeyboardInterrupt / MemoryError raised at the n-th
+    line event inside verif's own code) at positions stratified over its whole execution, each time on a
+    freshly built dataset object on the same inputs, and followed by the sibling requests for every input.
+    Whatever the interrupted request left in the caches, the later answers must be those of a fresh dataset."""
+    prof = dict(gen_data.PROFILE_C18, n_inputs=(2, 4), faults=[], p_aux=0.0, p_interrupt=0.0)
+    spec = gen_data.gen_spec("C18", seed, run, tier, prof)
+    rng = prng.stream(seed, "C18", run, "interrupt-sweep")
+    info = gen_data.world_info(spec["world"])
+    script = []
+    for _ in range(6):
+        script = [op for op in gen_data.client_script(rng, info, prof, rng.choice(
+            ["metric_loop", "diagram", "probabilistic", "from_field", "auto_threshold"])) if op["op"] == "req"]
+        if script:
+            break
+    if not script:
+        return spec
+    first = script[0]
+    m = 14 if tier == "quick" else 36
+    span = 120 + 90 * info["n_inputs"]
+    ops = []
+    for j in range(m):
+        nth = 1 + int((j + rng.random()) * span / m)
+        ops.append({"op": "rebuild"})
+        ops.append({"op": "interrupt", "nth": nth, "exc": rng.choice(["KeyboardInterrupt", "KeyboardInterrupt", "MemoryError"])})
+        ops.append(dict(first, ds=j + 1))
+        for i in range(info["n_inputs"]):
+            ops.append(dict(first, input=i, ds=j + 1))
+        f = rng.choice(first["fields"])
+        ops.append({"op": "req", "fields": [f], "single": True, "input": rng.randrange(info["n_inputs"]), "axis": "All",
+                    "index": None, "ds": j + 1, "client": 0})
+    spec["ops"] = ops
+    spec["pre_ops"] = []
+    spec["pinned"] = True
+    spec["kind"] = "interrupt_sweep"
+    return spec
+
+
 def c18_gen(seed, run, tier):
     if run % (700 if tier == "quick" else 400) == 107:
         return c18_marathon(seed, run, tier)
     if run % 10 == 3:
         return c18_menu(seed, run, tier, run // 10)
+    if run % 20 == 7:
+        return c18_interrupt_sweep(seed, run, tier)
     spec = gen_data.gen_spec("C18", seed, run, tier, gen_data.PROFILE_C18)
     trng = prng.stream(seed, "C18", run, "tenant")
     if trng.random() < 0.2:
